@@ -442,6 +442,26 @@ impl Exec {
                 }
                 Some(format!("id {}", id_num(id1)))
             }
+            "cacheds" => {
+                // the same through a handle that lives for the whole process and is shared by every thread,
+                // as the `static`s a guest declares are
+                let b = unhex(t.get(1)?)?;
+                let text = String::from_utf8(b).ok()?;
+                static HANDLES: std::sync::OnceLock<std::sync::Mutex<std::collections::HashMap<String, &'static api::CachedInternedStringId>>> = std::sync::OnceLock::new();
+                let h: &'static api::CachedInternedStringId = {
+                    let mut m = HANDLES.get_or_init(|| std::sync::Mutex::new(std::collections::HashMap::new())).lock().ok()?;
+                    *m.entry(text.clone()).or_insert_with(|| {
+                        let s: &'static str = Box::leak(text.clone().into_boxed_str());
+                        Box::leak(Box::new(api::CachedInternedStringId::new(s)))
+                    })
+                };
+                let id1 = h.load();
+                let id2 = h.load();
+                if id1 != id2 {
+                    return Some("cache-unstable".to_string());
+                }
+                Some(format!("id {}", id_num(id1)))
+            }
             // ---- nan boxes (pure)
             "box" => {
                 let kind = *t.get(1)?;
